@@ -10,6 +10,8 @@ PROP = {
         {"name": "cxx_dlist", "quick": 600000, "thorough": 10000000, "maxlen": 256},
         {"name": "c_dlist_many", "quick": 6000, "thorough": 60000, "maxlen": 4000},
         {"name": "cxx_dlist_many", "quick": 6000, "thorough": 60000, "maxlen": 4000},
+        {"name": "cxx_dlist_two_links", "quick": 300000, "thorough": 4000000, "maxlen": 96},
+        {"name": "lists_huge", "quick": 400, "thorough": 6000, "maxlen": 16},
         {"name": "slist_many", "quick": 4000, "thorough": 60000, "maxlen": 3000},
         {"name": "hlist_many", "quick": 4000, "thorough": 60000, "maxlen": 3000},
         {"name": "slist", "quick": 300000, "thorough": 4000000, "maxlen": 160},
